@@ -1131,7 +1131,7 @@ func FontFamilyHandler(value string) bool {
 	}
 	for _, i := range splitVals {
 		i = strings.TrimSpace(i)
-		if Font.FindString(i) != i {
+		if !Font.MatchString(i) {
 			return false
 		}
 	}
